@@ -33,6 +33,7 @@ func runC06(p *Prog, r *Report) {
 	assignabilityRule(p, r, "C06.R6")
 	indexStableRule(p, r, "C06.R7")
 	parentPointerRule(p, r, "C06.R9")
+	callersRebuiltRule(p, r, "C06.R10")
 	calleeErrRule(p, r, "C06.R8", "the error of Index.Get (`a function for these types exists but its context is not available`) is never dropped: at every call no success return is reachable while it may be non-nil — generation fails instead of silently using another rule", 2, func(f *types.Func) bool {
 		return isFunc(f, modPath+"/method", "Index", "Get")
 	})
@@ -55,9 +56,17 @@ func c06R1(p *Prog, r *Report) {
 		if fi == nil {
 			continue
 		}
+		declared := declaredLookupHelpers(p)
 		lookup := func(in ssa.Instruction) bool {
 			if isNamed0("callExisting")(in) {
 				return true
+			}
+			// a verified `declared by the user?` lookup (asks the extend index and the method index):
+			// its negative answer is the only sanctioned way past callExisting (update positions, C11.R9)
+			if c, ok := in.(ssa.CallInstruction); ok && ssaCalleeObj(c) != nil {
+				if why, ok := declared[ssaCalleeObj(c).Origin()]; ok && why == "" {
+					return true
+				}
 			}
 			// Assign delegates to g.Build for MustAssign
 			c, ok := in.(ssa.CallInstruction)
